@@ -450,6 +450,7 @@ package bcl
 //@   assert [C17] block_after_def: at stmt.blockStmt#1: p.prev.typ == tDEF
 //@   assert [C17] bind_after_bind: at stmt.bindStmt#1: p.prev.typ == tBIND
 //@   assert [C17] bare_expression_only_inside_a_block: at stmt.exprStmt#2: p.scope.depth > 0
+//@   assert [C17] a_statement_keyword_never_starts_a_bare_expression: at stmt.exprStmt#2: p.current.typ != tPRINT && p.current.typ != tEVAL && p.current.typ != tDEF && p.current.typ != tBIND && p.current.typ != tVAR
 //@   assert [C17] anything_else_at_top_level_is_an_error: at stmt.errorAtCurrent#1: p.scope.depth == 0
 //@   assert [C17] resynchronise_only_at_top_level_in_panic_mode: at sync#1: p.panicMode && p.scope.depth == 0
 //@   requires statement_boundary: g.uninit == 0 && (p.hadError || (g.pend == F0() && g.sd == p.scope.localCount))
@@ -486,6 +487,7 @@ package bcl
 //@   assert [C17] a_terminator_never_follows_a_terminator: at match.advance#1: p.hadError || p.current.typ != tSEMICOLON || p.prev.typ != tSEMICOLON
 //@   ensures [C17] a_statement_does_not_end_with_a_terminator: p.hadError || p.prev.typ != tSEMICOLON
 //@   assert [C03,C05] block_name_is_the_unquoted_literal: at Unquote#1: $s == p.prev.val && p.prev.typ == tSTR
+//@   assert [C08,C17] a_bad_block_name_is_reported_at_the_string_literal: at error#1: p.prev.typ == tSTR
 //@   assert [C03,C05] block_name_constant_is_that_value: at makeConst#1: p.hadError || blockName == "" || blockName == g.unq_out
 //@   requires statement_boundary: g.uninit == 0 && (p.hadError || (g.pend == F0() && g.sd == p.scope.localCount))
 //@   ensures statement_boundary: g.uninit == 0 && (p.hadError || (g.pend == F0() && g.sd == p.scope.localCount))
